@@ -29,7 +29,10 @@ KERNEL_TB = [
     "extraction: Extraction Language OCaml + ExtrOcamlBasic (bool, option, unit, list, prod, sumbool); "
     "no Extract Constant; nat/positive/Z kept inductive; extract/driver.ml (parser/printer); OCaml 4.13.1",
     "Level-2 translator (translator/*.py): fail-closed Python-ast -> Coq rendering of index arithmetic, the gate "
-    "cascades of Network.perform_action / HostVector.perform_action, the entitlement table, step-limit/reward",
+    "cascades of Network.perform_action / HostVector.perform_action, the entitlement table, step-limit/reward, the "
+    "per-host loop bodies of reset/_update_reachable/_perform_subnet_scan, the generator's subnet arithmetic "
+    "(math.ceil(a/b) rendered as integer ceiling), the score-bound expression, the order of load_action_list, the "
+    "observation-space bounds",
     "correspondence harness (harness/*.py): scenario generators, numpy.random.rand shim, "
     "independent documented-layout decoder, float->1/64 fixed point with exactness assertion, "
     "prob -> ceil(prob*2^53)",
